@@ -255,6 +255,10 @@ def roundtrip_cases():
                 shapes["PointUndirectedGraph_%dpts_%dedges" % (npts, ne)] = lambda Q=Q, ea=ea: ms.PointUndirectedGraph.init_from_edges(Q, ea)
         for n, f in shapes.items():
             out.append(("ljson %dD %s" % (d, n), "ljson", "rt.ljson", f))
+    for fname in ("clip.mp4", "clip.v2.final.mp4", "anim.gif", "clip.avi"):
+        out.append(("refused video export " + fname, "refuse_video", fname, None))
+    # points left of / above the origin (annotations may lie outside the image): the sign survives
+    out.append(("pts negative coordinates", "pts", "rt.neg.pts", lambda: ms.PointCloud(np.array([[-12.5, 3.25], [4.0, -7.125], [-0.5, -2048.75], [6.0, 1.0]]))))
     out.append(("pts", "pts", "rt.pts", lambda: ms.PointCloud(np.array([[0.12345, 10.5], [3.0006, 2.9994], [7.25, 0.0]]))))
     # coordinates of every magnitude an image can have (the three-decimal promise is absolute, not relative)
     out.append(("pts int64 coordinates", "pts", "rt.int.pts", lambda: ms.PointCloud(np.array([[12, 0], [3, 2047], [511, 7]], dtype=np.int64))))
@@ -299,11 +303,46 @@ def roundtrip_cases():
     return out
 
 
+def _run_refusal(label, fname):
+    """exporters whose encoder is not installed here (video, animated gif) still have a refusal path that runs before the encoder
+    is started: an existing file, under every spelling of its path, is refused with OverwriteError and keeps its bytes"""
+    import menpo.io as mio
+    from menpo.image import Image
+    from menpo.io.exceptions import OverwriteError
+
+    root = tempfile.mkdtemp(prefix="menpo-rf-")
+    try:
+        frames = [Image(np.full((3, 4, 6), 0.25 * k)) for k in range(3)]
+        for spell in ("Path", "str"):
+            p = Path(root) / fname
+            sentinel = ("KEEP-ME " + fname + " " + spell).encode()
+            p.write_bytes(sentinel)
+            arg = p if spell == "Path" else str(p)
+            try:
+                mio.export_video(frames, arg, overwrite=False)
+                return label + ": export_video to an existing file (%s) was not refused" % spell
+            except OverwriteError:
+                pass
+            except Exception as e:
+                return label + ": export_video to an existing file (%s) raised %s instead of OverwriteError" % (spell, type(e).__name__)
+            if not p.exists():
+                return label + ": the refused export_video (%s) DELETED the existing file" % spell
+            if p.read_bytes() != sentinel:
+                return label + ": the refused export_video (%s) changed the existing file" % spell
+            if sorted(x.name for x in Path(root).iterdir()) != [fname]:
+                return label + ": the refused export_video (%s) left other files behind: %r" % (spell, sorted(x.name for x in Path(root).iterdir()))
+        return None
+    finally:
+        shutil.rmtree(root, ignore_errors=True)
+
+
 def run_roundtrip(case):
     import menpo.io as mio
     from menpo.image import Image
 
     label, kind, fname, factory = case
+    if kind == "refuse_video":
+        return _run_refusal(label, fname)
     root = tempfile.mkdtemp(prefix="menpo-rt-")
     try:
         obj = factory()
